@@ -1,3 +1,5 @@
+import IpcModel.Lemmas.RegRefine
+import IpcModel.InprocSet
 import IpcModel.InprocReg
 import IpcModel.Inproc
 import IpcModel.Lemmas.RefineRun
@@ -85,5 +87,37 @@ theorem C19_inproc_rendezvous (ops : List InprocReg.Op) (n : Nat) :
       = (if (InprocReg.run InprocReg.fixed ops).1.phase[n]? = some .live then .connected n else .err) ∧
     InprocReg.Res.panic ∉ (InprocReg.run InprocReg.fixed ops).2 :=
   ⟨InprocReg.code_variant.1, (InprocReg.connect_spec ops n).1, InprocReg.no_panic ops⟩
+
+/-- **C19_inproc_set_ids** — receiver sets on the in-process transport: ids come from a counter that only grows (regenerated), so after any history
+of additions and closures no two members of a set share an id — as on the OS transports (`C06_inv2_fresh`) — and a closed member
+leaves both parallel vectors at the same index. -/
+theorem C19_inproc_set_ids (ops : List InprocSet.Op) :
+    (InprocSet.run Gen.inprocSetIdsFromCounter ops).ids.Nodup ∧ Gen.inprocSetParallelRemove = true := by
+  have h := InprocSet.code_shape
+  exact ⟨by rw [h.1]; exact InprocSet.ids_distinct ops, h.2⟩
+
+/-- **C19_rendezvous_same_answers** — the OS rendezvous (`OneShot`: listening sockets bound to names) and the in-process registry (`InprocReg`, variant
+regenerated from the source and equal to `fixed` by `C19_inproc_rendezvous`) driven by the same client program — any sequence of new /
+connect / send / close / accept / drop server / receive / drop receiver in which every `new` succeeds, `accept` and `drop` acting
+on the registry exactly when they complete — give every `connect`, to any name, after any history, the same answer: connected
+on one iff connected on the other, an error on one iff an error on the other (simulation relation `RegRefine.Rel`). -/
+theorem C19_rendezvous_same_answers (ops : List OneShot.Op) (hnew : ∀ op ∈ ops, ∀ k, op ≠ OneShot.Op.new (k + 1)) (n : Nat) :
+    let p := RegRefine.runBoth (⟨[], [], 0⟩, ⟨[], [], false⟩) ops
+    ((∃ c, (OneShot.step p.1 (.connect n)).2 = .conn c) ↔ (InprocReg.step InprocReg.fixed p.2 (.connect n)).2 = .connected n) ∧
+    ((OneShot.step p.1 (.connect n)).2 = .err ↔ (InprocReg.step InprocReg.fixed p.2 (.connect n)).2 = .err) :=
+  RegRefine.connect_same_answer ops hnew n
+
+/-- non-vacuity: two servers; the first accepts a client, the second is dropped unused, a third stays: connects to 0, 1, 7 fail on both,
+a connect to 2 succeeds on both -/
+def demoBoth : OneShot.St × InprocReg.St :=
+  RegRefine.runBoth (⟨[], [], 0⟩, ⟨[], [], false⟩) [.new 0, .new 0, .connect 0, .csend 0 5, .accept 0, .dropServer 1, .new 0]
+example :
+    ((OneShot.step demoBoth.1 (.connect 0)).2, (OneShot.step demoBoth.1 (.connect 1)).2, (OneShot.step demoBoth.1 (.connect 7)).2,
+     (OneShot.step demoBoth.1 (.connect 2)).2)
+    = (.err, .err, .err, .conn 1) := by decide
+example :
+    ((InprocReg.step InprocReg.fixed demoBoth.2 (.connect 0)).2, (InprocReg.step InprocReg.fixed demoBoth.2 (.connect 1)).2,
+     (InprocReg.step InprocReg.fixed demoBoth.2 (.connect 7)).2, (InprocReg.step InprocReg.fixed demoBoth.2 (.connect 2)).2)
+    = (.err, .err, .err, .connected 2) := by decide
 
 end C19
